@@ -56,6 +56,24 @@ def _estimate_system_molecular_weight(molecules, system_molweight):
 
     if num_mass == len(molecules):
         estimated_weights.append(total_mass)
+    elif num_mass >= 1 and num_mass + num_fractions == len(molecules):
+        # Several absolute masses next to percentages: the absolute masses make up the remaining percentage.
+        if total_fraction < 100:
+            estimated_weights.append(total_mass / (1 - total_fraction / 100.0))
+        elif total_mass > 0:
+            raise RuntimeError(
+                f"The percentages add up to {total_fraction}, no share is left for the components with an absolute mass."
+            )
+    elif system_molweight and num_mass >= 1 and num_mass + num_fractions == len(molecules) - 1:
+        # One component is left without a specifier: with a known total it receives the remaining mass.
+        remaining_mass = system_molweight * (1 - total_fraction / 100.0) - total_mass
+        if remaining_mass < -1e-6:
+            raise RuntimeError(
+                f"System described with inconsistent mol weights, components exceed the total {system_molweight}."
+            )
+        for mol in molecules:
+            if mol.mixture is None:
+                mol.mixture = Mixture(f".|{max(remaining_mass, 0.0)}|")
 
     if len(estimated_weights) > 1:
         for i in range(len(estimated_weights) - 1):
